@@ -338,6 +338,7 @@ func init() {
 	vrt.Register("C16_names_rebound", NamesRebound)
 	vrt.Register("C16_return_inside_loops", ReturnInsideLoops)
 	vrt.Register("C16_results_chained", ResultsChained)
+	vrt.Register("C16_return_after_text", ReturnAfterText)
 }
 
 func GeneratedFunctions() {
@@ -554,5 +555,33 @@ func ResultsChained() {
 	want, _ := plush.Render(ref, ctx)
 	vrt.Assert(err == nil, "a path hanging off the call of a template function renders: "+c.in)
 	vrt.Assert(got == want, "the value of the call is passed on to the rest of the path: "+c.in)
+	vrt.Cover("done")
+}
+
+// ---- a function whose body spans tags and has put out text when the return is
+// reached: emitting the call emits the returned value (what the body rendered
+// before it may stand in front, the statement does not say), and nothing of
+// what follows the return
+func ReturnAfterText() {
+	v := vrt.Int()
+	ctx := plush.NewContext()
+	ctx.Set("v", v)
+	V := strconv.Itoa(v)
+	bodies := []string{
+		"%>A<% return p %>Z<% ",
+		"%>A<% if (p == v) { return p } %>Z<% ",
+		"%>A<%= 7 %>B<% if (true) { if (true) { return p } } %>Z<% ",
+		"%><td><% if (p == v) { return p } %><%= 8 %></td><% ",
+		"%>A<% for (i) in [1, 2] { %>B<% return p %>Y<% } %>Z<% ",
+	}
+	k := vrt.Choice(len(bodies))
+	body := bodies[k]
+	pre := []string{"A", "A", "A7B", "<td>", "AB"}[k]
+	in := "<% let f = fn(p) { " + body + "} %>[<%= f(v) %>]"
+	vrt.Note("input", in)
+	got, err := plush.Render(in, ctx)
+	vrt.Note("got", got)
+	vrt.Assert(err == nil, "a function that renders text before its return renders")
+	vrt.Assert(got == "["+pre+V+"]" || got == "["+V+"]", "emitting the call emits the value of the return that was reached (after what the body rendered before it, or alone) and nothing of what follows the return")
 	vrt.Cover("done")
 }
